@@ -820,7 +820,7 @@ func Run(cfg hx.Config) (*hx.Meta, error) {
 
 	nh, steps := 12, 3
 	if cfg.Tier == "thorough" {
-		nh, steps = 36, 4
+		nh, steps = 30, 4
 	}
 	type hist struct {
 		name string
